@@ -200,7 +200,8 @@ def r4(ctx):
     masks = [n for n in ast.walk(ins.node) if isinstance(n, ast.BinOp) and isinstance(n.op, ast.RShift) and norm(n.left) == "self.onehot"]
     con = ctx.fn("connection:BitField.contains")
     masks_c = [n for n in ast.walk(con.node) if isinstance(n, ast.BinOp) and isinstance(n.op, ast.RShift) and norm(n.left) == "self.onehot"]
-    ctx.check(len(masks) == 2 and len(masks_c) == 1, "C08.R4", ins, "three uses of the bit-index expression self.onehot >> (x - 1)", witness=[norm(m) for m in masks + masks_c])
+    # (the newer-branch set, the older-branch set - and test, when the duplicate test is written with the mask - and the test in contains)
+    ctx.check(len(masks) >= 2 and len(masks_c) >= 1, "C08.R4", ins, "the bit-index expression self.onehot >> (x - 1) is used in both branches of insert and in contains", witness=[norm(m) for m in masks + masks_c])
     idx_ok = all(isinstance(m.right, ast.BinOp) and isinstance(m.right.op, ast.Sub) and norm(m.right.right) == "1" and (isinstance(m.right.left, ast.Name) or (isinstance(m.right.left, ast.UnaryOp) and isinstance(m.right.left.op, ast.USub) and isinstance(m.right.left.operand, ast.Name)))
                  for m in masks + masks_c)
     ctx.check(idx_ok, "C08.R4", ins, "bit index is (x - 1) at every use", "offset d selects bit onehot >> (d-1) in insert (both branches) and contains", witness=[norm(m) for m in masks + masks_c])
